@@ -190,6 +190,48 @@ def pairing(r: R, chk, consumers: List[str], floor: int):
     chk.floor("PAIR", "pairing instances in the consumers", n, floor)
 
 
+# ------------------------------------------------------------------ default rule is open
+# node families that contain the ends 0 and 1 of the reference interval (confirmed by reading: i/(npts-1) for i in range(npts))
+CLOSED_NODES = {NS + "closed_linspace": "i/(npts-1), i = 0..npts-1 contains 0 and 1"}
+
+
+def default_open(r: R, chk, consumers: List[str]):
+    """the rule chosen when the caller gives no method samples no span end: the integrand is evaluated span by span through
+    the right-continuous curve.eval, so a node at the right end of a span reads the NEXT span's value — wrong for a degree-0
+    curve and for the speed of a polyline (Integrate.lenght), whatever the weights."""
+    from .c08 import path_facts
+
+    for q in CLOSED_NODES:
+        fi = r.prog.func(q)
+        if not any(isinstance(b, ast.BinOp) and isinstance(b.op, ast.Div) and seg(b.right).replace(" ", "") in ("(npts-1)", "npts-1") for b in ast.walk(fi.node)):
+            raise AnalysisError(f"{q} no longer divides by npts - 1: the closed-node table of the checker is stale")
+    n = 0
+    for q in consumers:
+        ctx = r.root(q)
+        fi = ctx.fi
+        reg = {}
+        for s in ast.walk(fi.node):
+            if isinstance(s, ast.Assign) and isinstance(s.value, ast.Dict):
+                for k, v in zip(s.value.keys, s.value.values):
+                    if isinstance(k, ast.Constant):
+                        fr = funcrefs(ctx, v)
+                        if len(fr) == 1 and fr[0].startswith(NS):
+                            reg[k.value] = fr[0]
+        for node in r.stmt_nodes(ctx):
+            s = node.ast
+            if not (isinstance(s, ast.Assign) and len(s.targets) == 1 and isinstance(s.targets[0], ast.Name) and s.targets[0].id == "method" and isinstance(s.value, ast.Constant) and isinstance(s.value.value, str)):
+                continue
+            if ("method is None", True) not in path_facts(ctx, node.id):
+                continue
+            n += 1
+            nf = reg.get(s.value.value)
+            ok = nf is not None and nf not in CLOSED_NODES
+            chk.ob("DEFAULT-OPEN", f"{q}: the default `{s.value.value}` samples no span end", ok, loc=r.loc(ctx, s),
+                   detail="" if ok else f"{q}: without an explicit method the rule {s.value.value!r} is used, whose nodes ({nf}: {CLOSED_NODES.get(nf, 'not in the registry')}) include the span ends: the right end of every span is evaluated on the next span (right-continuity), so the integral of a degree-0 curve and the length of a polyline with unequal speeds are wrong",
+                   func=q, construct=f"default rule {s.value.value} samples span ends")
+    chk.floor("DEFAULT-OPEN", "default rule selections", n, 2 * len(consumers))
+
+
 # ------------------------------------------------------------------ literal seeds
 def fold(e: ast.expr):
     if isinstance(e, ast.Constant):
@@ -272,7 +314,7 @@ def run(m, chk):
         "define them and asks both for the same size (PAIR); the literal seeds satisfy length / sum / symmetry / moment equations against closed forms coded in the checker (SEED); Integrate.* do not modify the curve "
         "and depend on all their inputs. Exactness order of the *computed* rules, the closed-form spline integral and polyline length are not decided."
     )
-    chk.decides = ["PURE-MEMO", "PAIR (family and size)", "SEED", "PURE", "DEP-MAY", 'MEMO-KEY (no value-keyed memoisation)']
+    chk.decides = ["PURE-MEMO", "PAIR (family and size)", "SEED", "PURE", "DEP-MAY", 'MEMO-KEY (no value-keyed memoisation)', 'DEFAULT-OPEN (the default rule has no node at a span end)', 'JACOBIAN (span sums are multiplied by the span length)']
     chk.not_decided = ["exactness order of the computed rules for every n (Linalg.invert)", "Integrate.scalar equals the closed form", "polyline length"]
     chk.assume("numpy.polynomial.legendre.leggauss is deterministic")
     tabs, acc = pure_memo(r, chk)
@@ -281,6 +323,10 @@ def run(m, chk):
     memo_key(r, chk)
     pairing(r, chk, ["calculus.Integrate.scalar", "calculus.Integrate.density", "calculus.Integrate.function", "heavy.LeastSquare.func2func"], floor=20)
     seeds(r, chk, tabs)
+    default_open(r, chk, ["calculus.Integrate.scalar", "calculus.Integrate.density", "calculus.Integrate.function"])
+    from .extra import jacobian
+
+    jacobian(r, chk, ["calculus.Integrate.scalar", "calculus.Integrate.density", "calculus.Integrate.function"])
     for q, params in (("calculus.Integrate.scalar", ["curve"]), ("calculus.Integrate.density", ["curve"]), ("calculus.Integrate.lenght", ["curve"]), ("calculus.Integrate.function", ["knotvector"])):
         r.pure("PURE", q, params)
     for q, need in (("calculus.Integrate.scalar", ["curve.knotvector", "curve.ctrlpoints", "function", "method", "nnodes"]), ("calculus.Integrate.density", ["curve.knotvector", "curve.ctrlpoints", "function", "method", "nnodes"]), ("calculus.Integrate.function", ["knotvector", "function", "method", "nnodes"])):
